@@ -23,26 +23,27 @@ using sim::Result;
 using sim::Rng;
 
 enum { C_PART = 0, C_QLEN, C_RECYCLE, C_ARENAS };
-enum { P_RING_INT = 0, P_RING_TRACKED, P_SV_NORMAL, P_SV_NOINIT_DESTROY, P_SV_NOINIT_NODESTROY, P_N };
+enum { P_RING_INT = 0, P_RING_TRACKED, P_SV_NORMAL, P_SV_NOINIT_DESTROY, P_SV_NOINIT_NODESTROY, P_RING_TRACKED_IL, P_N };
 enum {
     R_CONSTRUCT = 0, R_PUSH_BACK, R_PUSH_BACK_MOVE, R_EMPLACE_BACK, R_PUSH_FRONT, R_PUSH_FRONT_MOVE, R_EMPLACE_FRONT,
     R_POP_FRONT, R_POP_BACK, R_CLEAR, R_COPY_CTOR, R_COPY_ASSIGN, R_MOVE_CTOR, R_MOVE_ASSIGN, R_DEALLOCATE, R_ALLOCATE,
-    R_COPY_TO, R_MOVE_TO, R_DESTROY, R_DEFAULT_CTOR, R_PUSH_BACK_ALIAS, R_PUSH_FRONT_ALIAS, R_N
+    R_COPY_TO, R_MOVE_TO, R_DESTROY, R_DEFAULT_CTOR, R_PUSH_BACK_ALIAS, R_PUSH_FRONT_ALIAS, R_EMPLACE_BACK_ARGS,
+    R_EMPLACE_FRONT_ARGS, R_N
 };
 enum { V_CONSTRUCT = 0, V_MOVE_CTOR, V_MOVE_ASSIGN, V_SWAP, V_RESIZE, V_DESTROY, V_FILL, V_WRITE, V_DROP, V_N };
 const uint32_t RECYCLE[] = {0, 300, 700, 1000};
 
 void generate(Rng& r, Workload& w, int tier) {
     int part = int(r.below(P_N));
-    if (part >= P_SV_NOINIT_DESTROY && r.chance(1, 2)) part = int(r.below(3));
+    if ((part == P_SV_NOINIT_DESTROY || part == P_SV_NOINIT_NODESTROY) && r.chance(1, 2)) part = int(r.below(3));
     w.cfg = {part, int64_t(r.below(5)), int64_t(r.below(4)), int64_t(r.below(2))};
     int n = int(r.range(1, tier ? 200 : 60));
-    if (part <= P_RING_TRACKED) {
+    if (part <= P_RING_TRACKED || part == P_RING_TRACKED_IL) {
         for (int i = 0; i < n; ++i) {
             uint64_t k = r.below(100);
             int64_t code;
             if (k < 8) code = R_CONSTRUCT;
-            else if (k < 50) code = R_PUSH_BACK + int64_t(r.below(6));
+            else if (k < 50) code = r.chance(1, 5) ? R_EMPLACE_BACK_ARGS + int64_t(r.below(2)) : R_PUSH_BACK + int64_t(r.below(6));
             else if (k < 70) code = R_POP_FRONT + int64_t(r.below(2));
             else code = R_CLEAR + int64_t(r.below(R_N - R_CLEAR));
             w.ops.push_back({code, int64_t(r.below(3)), int64_t(r.below(3)), int64_t(r.below(10))});
@@ -53,9 +54,19 @@ void generate(Rng& r, Workload& w, int tier) {
     }
 }
 
+// an element type on which braces and parentheses disagree, like std::vector<int>(3, 7) and {3, 7}
+struct TrackedIL : sim::Tracked {
+    TrackedIL(int k, int id) : sim::Tracked(k, id) {}
+    TrackedIL(std::initializer_list<int>) : sim::Tracked(-4242, -4242) {}
+};
 template <class T> T make(int v);
+template <> TrackedIL make<TrackedIL>(int v);
 template <> int make<int>(int v) { return v; }
 template <> sim::Tracked make<sim::Tracked>(int v) { return sim::Tracked(v, v); }
+template <> TrackedIL make<TrackedIL>(int v) { return TrackedIL(v, v); }
+// emplacement with the constructor's own arguments (not a prebuilt element)
+template <class RB> void emplace_args(RB& r, bool back, int v, std::true_type) { if (back) r.emplace_back(v); else r.emplace_front(v); }
+template <class RB> void emplace_args(RB& r, bool back, int v, std::false_type) { if (back) r.emplace_back(v, v); else r.emplace_front(v, v); }
 int val(const int& v) { return v; }
 int val(const sim::Tracked& t) { return t.k(); }
 
@@ -76,7 +87,7 @@ void run_ring(const Workload& w, Result& res) {
     static const char* names[] = {"construct", "push_back", "push_back_move", "emplace_back", "push_front", "push_front_move",
                                   "emplace_front", "pop_front", "pop_back", "clear", "copy_ctor", "copy_assign", "move_ctor",
                                   "move_assign", "deallocate", "allocate", "copy_to", "move_to", "destroy", "default_ctor", "push_back_alias",
-                                  "push_front_alias"};
+                                  "push_front_alias", "emplace_back_args", "emplace_front_args"};
     for (auto& op : w.ops) {
         if (op.empty()) continue;
         int code = int(sim::modn(op[0], R_N));
@@ -109,6 +120,12 @@ void run_ring(const Workload& w, Result& res) {
                 int v = m[i].vals[k];
                 r[i]->push_front((*r[i])[k]); m[i].vals.push_front(v); did = true;
             }
+            break;
+        case R_EMPLACE_BACK_ARGS:
+            if (can_push(i)) { emplace_args(*r[i], true, next_val, std::is_same<T, int>()); m[i].vals.push_back(next_val++); did = true; }
+            break;
+        case R_EMPLACE_FRONT_ARGS:
+            if (can_push(i)) { emplace_args(*r[i], false, next_val, std::is_same<T, int>()); m[i].vals.push_front(next_val++); did = true; }
             break;
         case R_POP_FRONT: if (present[i] && !m[i].vals.empty()) { r[i]->pop_front(); m[i].vals.pop_front(); did = true; } break;
         case R_POP_BACK: if (present[i] && !m[i].vals.empty()) { r[i]->pop_back(); m[i].vals.pop_back(); did = true; } break;
@@ -288,6 +305,7 @@ void execute(const Workload& w, Result& res) {
     switch (part) {
     case P_RING_INT: res.probe("ring_int"); run_ring<int>(w, res); break;
     case P_RING_TRACKED: res.probe("ring_tracked"); run_ring<sim::Tracked>(w, res); break;
+    case P_RING_TRACKED_IL: res.probe("ring_tracked_initializer_list_type"); run_ring<TrackedIL>(w, res); break;
     case P_SV_NORMAL: res.probe("sv_normal_tracked"); run_sv<TrackedA, tlx::SimpleVectorMode::Normal>(w, res); break;
     case P_SV_NOINIT_DESTROY: res.probe("sv_noinit_destroy"); run_sv<int, tlx::SimpleVectorMode::NoInitButDestroy>(w, res); break;
     default: res.probe("sv_noinit_nodestroy"); run_sv<int, tlx::SimpleVectorMode::NoInitNoDestroy>(w, res); break;
